@@ -85,6 +85,12 @@ def handle (op : String) (args : List PyVal) : Option (List PyVal) :=
     let vs ← e.values.mapM (applyF f)
     let k ← kindOf vs
     pure [.list vs, optList (constDecode ⟨vs, e.length⟩), k]
+  -- the dtype decision of SparseColumn.materialize as extracted from the source, over numpy's own
+  -- promotion table: dtype names of the stored values and of the default -> name of the result dtype
+  | "sparse_dtype", [.str v, .str d] => do
+    let vdt ← NpDType.ofName v
+    let ddt ← NpDType.ofName d
+    pure [.str (Gen.Encodings.sparseResultDType vdt ddt).name]
   | "func", [v, .int n] => do
     if n < 0 then none
     let out := functionExpand (fun (_ : Unit) => v) () n.toNat
